@@ -126,6 +126,34 @@ func (sc *spliceCtx) splice(call *ast.CallExpr) ([]byte, error) {
 	if !okSig {
 		return nil, fmt.Errorf("not a function")
 	}
+	// a type-parameterised helper: the instance used at this call; its type parameters become local aliases
+	var typeAliases []string
+	if fd.Type.TypeParams != nil {
+		id := calleeIdent(call)
+		inst, okInst := sc.callerInfo.Instances[id]
+		if id == nil || !okInst {
+			return nil, fmt.Errorf("generic callee without a recorded instance")
+		}
+		isig, okI := inst.Type.(*types.Signature)
+		if !okI {
+			return nil, fmt.Errorf("generic callee: instance is not a function")
+		}
+		sig = isig
+		k := 0
+		for _, f := range fd.Type.TypeParams.List {
+			for _, n := range f.Names {
+				if k >= inst.TypeArgs.Len() {
+					return nil, fmt.Errorf("generic callee: type argument count")
+				}
+				ts, err := sc.typeString(inst.TypeArgs.At(k))
+				if err != nil {
+					return nil, err
+				}
+				typeAliases = append(typeAliases, "type "+n.Name+" = "+ts)
+				k++
+			}
+		}
+	}
 	if sig.Variadic() {
 		return nil, fmt.Errorf("variadic")
 	}
@@ -269,6 +297,9 @@ func (sc *spliceCtx) splice(call *ast.CallExpr) ([]byte, error) {
 		if obj == nil {
 			return true
 		}
+		if v, isVar := obj.(*types.Var); isVar && v.IsField() {
+			return true // a field name (key of a struct literal): not looked up by scope
+		}
 		pkgLevel := obj.Parent() == types.Universe || (obj.Pkg() != nil && obj.Parent() == obj.Pkg().Scope())
 		if _, isPkgName := obj.(*types.PkgName); isPkgName {
 			// the same import must be visible under the same name in the caller's file
@@ -362,6 +393,9 @@ func (sc *spliceCtx) splice(call *ast.CallExpr) ([]byte, error) {
 		b.WriteString(d + "\n")
 	}
 	b.WriteString(label + ":\nfor {\n")
+	for _, ta := range typeAliases {
+		b.WriteString(ta + "\n")
+	}
 	if len(pnames) > 0 {
 		allBlank := true
 		for _, n := range pnames {
@@ -453,7 +487,7 @@ func (sc *spliceCtx) hoistable(call *ast.CallExpr) (ast.Stmt, error) {
 			}
 		case ast.Stmt:
 			switch x.(type) {
-			case *ast.AssignStmt, *ast.ExprStmt, *ast.ReturnStmt, *ast.DeclStmt:
+			case *ast.AssignStmt, *ast.ExprStmt, *ast.ReturnStmt, *ast.DeclStmt, *ast.SendStmt:
 				stmt = x
 			default:
 				return nil, fmt.Errorf("the call is nested in a statement that cannot take a hoisted operand")
